@@ -5,6 +5,7 @@ import random
 import re
 import subprocess
 import time
+import zlib
 from fractions import Fraction
 
 import common as C
@@ -1037,7 +1038,11 @@ def check_sweep_group(ctx, posr, genr, sr, k):
         d = parse_search(body)
         ctx.case((posr["op"], kk), len(d["info_list"]) > 0)
         w = where + [kk]
-        if d.get("panic") != "0":
+        if d.get("panic") == "2":
+            # ended by the hook clock: 50 000 answers "out of time" and the search still goes on; what it
+            # reported until then is judged below like any other run
+            ctx.fail("search-does-not-stop-after-running-out-of-time", where=w)
+        elif d.get("panic") != "0":
             ctx.fail("search-panic", where=w)
             continue
         if d.get("tbl") != tbl:
@@ -1300,7 +1305,7 @@ def judge_depths(ctx, posr, sr, k, nsucc):
     d = parse_search(C.impl_body(sr["op"], sr["I"]))
     ctx.case((posr["op"], sr["op"]), nsucc >= 2)
     if d.get("panic") != "0":
-        ctx.fail("search-panic", where=[posr["op"], sr["op"]])
+        ctx.fail("search-does-not-stop-after-running-out-of-time" if d.get("panic") == "2" else "search-panic", where=[posr["op"], sr["op"]])
         return
     roots = int(d.get("roots", "0"))
     by_depth = {}
@@ -1422,6 +1427,64 @@ def check_C10(ctx, deep=False):
     if not ctx.bs.engine_error:
         stale_table_session(ctx)
         run_traced(ctx, ["rep"], 8 if q else 60)
+        live_repetition_sessions(ctx, 80 if q else 600)
+
+
+def live_repetition_sessions(ctx, n):
+    """black box, the `go` path of the real binary: `position <history with repeated positions>`, then `go` with a
+    zero slice (the engine plays its fall-back move f and keeps the record), then a timed `go` WITHOUT a new
+    position: whenever a move of the side now to move leads to a position that occurred at least twice in the
+    history, the last score of every completed depth of that second search must be >= 0.  The drawn moves are
+    computed from the SPEC's record of the history and the SPEC's successors of the position after f."""
+    hist = [o for o in C.genops("rep", ctx.seed + 41, n, 14, 5) if o.startswith("pos ") and " moves " in o]
+
+    def one(h):
+        e = S.Engine()
+        try:
+            if not S.handshake(e):
+                return h, None, None
+            e.send(h[4:])
+            played = []
+            for _ in range(1 + (zlib.crc32(h.encode()) & 1)):       # one or two moves played by the engine itself first
+                r1 = S.go_and_wait(e, "go wtime 100 btime 100", 8)
+                if not r1["answered"] or not re.fullmatch(r"bestmove [a-h][1-8][a-h][1-8][qrbn]?", r1["best"] or ""):
+                    return h, played, None
+                played.append(r1["best"].split(" ")[1])
+            r2 = S.go_and_wait(e, "go wtime 6100 btime 6100", 12)
+            return h, played, r2
+        finally:
+            e.kill()
+    runs = S.run_parallel(one, hist, workers=4)
+    ops, idx = [], []
+    for h, r1, r2 in runs:
+        if r1 is None or r2 is None or not r2["answered"]:
+            continue
+        idx.append((h, r2, len(ops), len(r1), r1))
+        ops += [h] + ["pick " + mv for mv in r1] + ["gen all"]
+    res = C.run_ops(ops) if ops else []
+    for h, r2, at, npl, played in idx:
+        posr, genr = res[at], res[at + npl + 1]
+        ctx.count("live_repetition_sessions")
+        if posr["S"] == "-" or genr["S"] in ("-", ""):
+            continue
+        _, _, stbl = posr["S"].partition(" tbl=")
+        counts = dict((kv.split(":")[0], int(kv.split(":")[1])) for kv in stbl.split(",") if ":" in kv)
+        drawn = [m for m, st in C.succ_list(genr["S"]) if counts.get(st.split(" ")[6], 0) >= 2]
+        ctx.case((h, "live-rep"), bool(drawn))
+        if not drawn:
+            continue
+        ctx.count("live_roots_with_a_repeating_move")
+        last, maxd = {}, 0
+        for l in r2["infos"]:
+            m = INFO_RE.match(re.sub(r" time \d+$", "", l))
+            if m:
+                last[int(m.group(2))] = (int(m.group(5)), l)
+                maxd = max(maxd, int(m.group(2)))
+        for D, (val, line) in last.items():
+            if D < maxd and val < 0:
+                ctx.fail("repeating-move-available-but-score-negative", session=[h[4:]] + ["go wtime 100 btime 100"] * npl + ["go wtime 6100 btime 6100"], engine_played=played,
+                         drawn_moves=drawn[:6], line=line)
+                break
 
 
 def stale_table_session(ctx):
@@ -1845,6 +1908,42 @@ def handover_sessions(ctx, n, prop):
                                 "M": expect, "I": best})
                 else:
                     ctx.sample({"pos": pl[:80], "sched": cfg, "infos_shown": len(infos), "answer": best})
+
+
+def blackbox_fallback(ctx):
+    """the correspondence harness does not build from this tree (e.g. a signature it relies on changed): the
+    property is no longer shown.  For the properties about the two threads the search for a failing input can
+    still go on against the real binary alone: forced-schedule sessions, and plain sessions with slices of a
+    few milliseconds (many hand-overs per poll), each go to be answered once and followed by readyok."""
+    if ctx.prop not in ("C03", "C08", "C16", "C18") or ctx.bs.engine_error:
+        return
+    handover_sessions(ctx, 3, ctx.prop)
+    poslines = ["position startpos"] + [o[4:] for o in C.genops("search", ctx.seed + 51, 6, 30) if o.startswith("pos ")]
+    plans = [(p, c) for p in poslines for c in (160, 175, 210, 250, 400)]
+
+    def one(plan):
+        pl, clock = plan
+        e = S.Engine()
+        try:
+            if not S.handshake(e):
+                return plan, "no-handshake"
+            for rep in range(3):
+                e.send(pl)
+                r = S.go_and_wait(e, "go wtime %d btime %d" % (clock, clock), 6)
+                if not r["answered"]:
+                    return plan, "go-not-answered (go #%d)" % (rep + 1)
+                if not r["ready"]:
+                    return plan, "no-readyok-after-go (go #%d)" % (rep + 1)
+                if r["n_best"] != 1:
+                    return plan, "not-exactly-one-bestmove"
+            return plan, "ok"
+        finally:
+            e.kill()
+    for plan, status in S.run_parallel(one, plans, workers=4):
+        ctx.case(("fallback", plan), True)
+        ctx.count("fallback_sessions")
+        if status != "ok":
+            ctx.fail("session-with-tiny-slices", status=status, position=plan[0], go="go wtime %d btime %d (x3)" % (plan[1], plan[1]))
 
 
 def stale_thread_sessions(ctx):
